@@ -6,6 +6,7 @@ CONSTANTS
   PVals = {0, 1, 2, 3, 4, 5}
   LVals = {0, 1, 2, 3, 4}
   ForbSets = {{}, {2}}
+  HookExcs = {"badvalue", "hardware", "other"}
   Inits = {4, 31}
   PV = {1, 2, 3}
   MinV = {1, 3}
